@@ -1,10 +1,10 @@
 import FordModel.Proto
 import FordModel.Calls
-import FordModel.Generated.C08
+import FordModel.CallsTable
 namespace Ford
 open Proto Calls
 
-def c08Intr : List Str := Generated.C08.intrinsics.map String.toList
+def c08Intr : List Str := Calls.intr
 
 def showChain (c : Chain) : Str := joinSep '%' c
 
